@@ -6,12 +6,18 @@
 //! drained; the bus events the operation stands for are given to the Lean model (`dbus` lines), which
 //! answers drains and state dumps.
 //!
+//! Every fourth scenario is about lifetimes instead (`Lifetime::poll_ended`): one object UUID that is created and
+//! destroyed (new cookie each time) by the owner, lifetimes bound by the other client at some point of that history to
+//! the living id, to an id of the past or to one that never existed, polled after every further operation; the
+//! model answers `lft <target> <history before> | <history since>` with `ended` / `pending`.
+//!
 //! Usage: disc <outdir> <seed> <cases>
 
 use aldrin::core::{ObjectId, ObjectUuid, ServiceId, ServiceUuid};
 use aldrin::discoverer::{Discoverer, DiscovererEventKind};
 use aldrin::low_level::{Service, ServiceInfo};
-use aldrin::Object;
+use aldrin::{Lifetime, LifetimeId, Object};
+use aldrin::core::ObjectCookie;
 use aldrin_test::tokio::TestBroker;
 use std::collections::{BTreeMap, HashMap};
 use std::fmt::Write as _;
@@ -223,9 +229,115 @@ async fn scenario(out: &mut Out, rng: &mut Rng) {
         }
         out.count("converged.checked");
     }
+    // `find_object` looks at the bus once: it returns an object iff one matches now (the first entry's request)
+    if let Some(e) = specs.first() {
+        let found = watcher.handle().find_object(e.object.map(ou), e.services.iter().map(|s| su(*s))).await.unwrap();
+        let matching: Vec<ObjectId> = world.objects.iter().filter(|(o, _)| e.object.map_or(true, |x| x == **o)
+            && e.services.iter().all(|s| world.services.contains_key(&(**o, *s)))).map(|(_, obj)| obj.id()).collect();
+        let ok = match &found {
+            Some((id, svcs)) => matching.contains(id) && svcs.len() == e.services.len()
+                && e.services.iter().zip(svcs.iter()).all(|(s, sid)| world.services.get(&(ou_idx(id.uuid) as u64, *s)).map_or(false, |sv| sv.id() == *sid)),
+            None => matching.is_empty(),
+        };
+        if !ok {
+            out.fail(&format!("find_object returned {:?} but the matching objects are {:?}", found, matching), &spec_text.join(" "));
+        }
+        out.count(if found.is_some() { "find_object.some" } else { "find_object.none" });
+    }
     drop(disc);
     world.services.clear();
     world.objects.clear();
+    owner.join().await;
+    watcher.join().await;
+    broker.join_idle().await;
+}
+
+/// has the lifetime ended, as far as it can tell from what has arrived
+fn poll_lifetime(l: &mut Lifetime) -> bool {
+    let waker = Waker::noop();
+    let mut cx = Context::from_waker(&waker);
+    matches!(l.poll_ended(&mut cx), Poll::Ready(()))
+}
+
+async fn lifetime_scenario(out: &mut Out, rng: &mut Rng) {
+    let mut broker = TestBroker::new();
+    let mut owner = broker.add_client().await;
+    let mut watcher = broker.add_client().await;
+    let mut names = Names { map: HashMap::new() };
+    let u = ou(rng.below(3));
+    let mut alive: Option<Object> = None;
+    let mut past: Vec<ObjectId> = vec![];
+    let mut pre: Vec<String> = vec![];
+    let mut step = |rng: &mut Rng, alive: &mut Option<Object>| rng.chance(3, 4) || alive.is_none();
+    let npre = rng.below(6);
+    for _ in 0..npre {
+        if !step(rng, &mut alive) {
+            continue;
+        }
+        match alive.take() {
+            Some(obj) => {
+                obj.destroy().await.unwrap();
+                pre.push("d".into());
+            }
+            None => {
+                let obj = owner.handle().create_object(u).await.unwrap();
+                pre.push(format!("c{}", names.ck(obj.id().cookie.0)));
+                past.push(obj.id());
+                alive = Some(obj);
+            }
+        }
+    }
+    owner.handle().sync_broker().await.unwrap();
+    // the lifetimes
+    let nl = 1 + rng.below(3);
+    let mut lts: Vec<(ObjectId, usize, Lifetime, bool)> = vec![];
+    for _ in 0..nl {
+        let id = match rng.below(4) {
+            0 => ObjectId::new(u, ObjectCookie(Uuid::from_u128(0x1e55_0000_0000_0000_0000_0000_0000_0000u128 + rng.below(1 << 30) as u128))),
+            1 | 2 if alive.is_some() => alive.as_ref().unwrap().id(),
+            _ if !past.is_empty() => past[rng.below(past.len() as u64) as usize],
+            _ => ObjectId::new(u, ObjectCookie(Uuid::from_u128(0x1e55_0000_0000_0000_0000_0000_0000_0000u128 + rng.below(1 << 30) as u128))),
+        };
+        let t = names.ck(id.cookie.0);
+        let l = watcher.handle().create_lifetime(LifetimeId(id)).await.unwrap();
+        out.count(if alive.as_ref().map_or(false, |o| o.id() == id) { "lifetime.bound_alive" } else if past.contains(&id) { "lifetime.bound_past" } else { "lifetime.bound_never" });
+        lts.push((id, t, l, false));
+    }
+    let mut post: Vec<String> = vec![];
+    let nsteps = rng.below(7);
+    for k in 0..=nsteps {
+        if k > 0 && rng.chance(2, 3) {
+            match alive.take() {
+                Some(obj) => {
+                    obj.destroy().await.unwrap();
+                    post.push("d".into());
+                }
+                None => {
+                    let obj = owner.handle().create_object(u).await.unwrap();
+                    post.push(format!("c{}", names.ck(obj.id().cookie.0)));
+                    alive = Some(obj);
+                }
+            }
+        }
+        owner.handle().sync_broker().await.unwrap();
+        watcher.handle().sync_broker().await.unwrap();
+        for (id, t, l, was) in lts.iter_mut() {
+            let ended = poll_lifetime(l);
+            let line = format!("lft {} {} | {}", t, pre.join(" "), post.join(" "));
+            out.emit(&line, if ended { "ended" } else { "pending" });
+            let scope_alive = alive.as_ref().map_or(false, |o| o.id() == *id);
+            if ended == scope_alive {
+                out.fail(&format!("lifetime is {} while its scope {}", if ended { "ended" } else { "pending" }, if scope_alive { "lives" } else { "does not live" }), &line);
+            }
+            if ended != l.has_ended() || (*was && !ended) {
+                out.fail("has_ended disagrees with poll_ended, or an ended lifetime came back", &line);
+            }
+            *was = ended;
+            out.count(if ended { "lifetime.ended" } else { "lifetime.pending" });
+        }
+    }
+    drop(lts);
+    drop(alive);
     owner.join().await;
     watcher.join().await;
     broker.join_idle().await;
@@ -312,18 +424,22 @@ fn main() {
     let mk = |n: &str| BufWriter::new(File::create(format!("{}/{}", outdir, n)).unwrap());
     let mut out = Out { req: mk("req.txt"), rust: mk("rust.txt"), oracle: mk("oracle.txt"), lines: 0, fails: 0, dist: BTreeMap::new(), samples: vec![] };
     let mut rng = Rng::new(seed);
-    for _ in 0..cases {
+    for case in 0..cases {
         let mut r = rng.fork();
         let start = out.lines;
         let res = std::panic::catch_unwind(std::panic::AssertUnwindSafe(|| {
             let rt = tokio::runtime::Builder::new_current_thread().build().unwrap();
-            rt.block_on(scenario(&mut out, &mut r));
+            if case % 4 == 3 {
+                rt.block_on(lifetime_scenario(&mut out, &mut r));
+            } else {
+                rt.block_on(scenario(&mut out, &mut r));
+            }
         }));
         if res.is_err() {
             // the discoverer (or the client under it) panicked while the bus events of this scenario were
             // delivered: keep the streams aligned and report the scenario as the failing history
-            out.emit("ddrain", "PANIC");
-            out.fail("the discoverer panicked while handling the bus events of this scenario", &format!("scenario starting at line {}", start + 1));
+            out.emit(if case % 4 == 3 { "lft 0 |" } else { "ddrain" }, "PANIC");
+            out.fail("the discoverer / lifetime panicked while handling the bus events of this scenario", &format!("scenario starting at line {}", start + 1));
         }
     }
     out.req.flush().unwrap();
